@@ -399,3 +399,17 @@ where
     packet.log_received(frames_collector);
     Ok(packet_content)
 }
+
+/// Verification hook: the real frame loop every packet space runs over a decrypted packet;
+/// `dispatch_frame` sees each frame, the result is the connection error (if any) it raises.
+#[cfg(genmeta_gm_quic_verif)]
+pub fn verif_read_plain_packet<H>(
+    packet: &PlainPacket<H>,
+    dispatch_frame: impl FnMut(qbase::frame::Frame),
+) -> Result<(), Error>
+where
+    H: GetType,
+    PacketHeaderBuilder: for<'a> From<&'a H>,
+{
+    read_plain_packet(packet, dispatch_frame).map(|_| ())
+}
